@@ -81,13 +81,17 @@ Definition rcase_check (c : rcase) : bool :=
       match impl with
       | Some w => lnarsese_eqb (lex_of_narsese Z (fshow_tab shown) FORMAT_ASCII v) w && verdict tag text w
       | None => false
-      end
+      end &&
+      (* the domain of the conformance theorems is the class the harness calls 0, and the Display
+         strings of the floats are digit-and-dot strings (hypothesis of the enum theorems) *)
+      Bool.eqb (narsese_ok_readme ucls_tab v) (tag =? 0) && forallb (fun p => num_ok (snd p)) shown
   | RLex x text impl tag =>
       str_eqb (lfmt_narsese lex_ascii_layout x) text &&
       match impl with
       | Some w => verdict tag text w
       | None => false
-      end
+      end &&
+      Bool.eqb (lnarsese_wf ucls_tab opennars_lexicon x) (tag =? 0)
   | RUni c alnum numeric white ascii_punct ascii_alpha =>
       Bool.eqb (ucls_tab UNumber c) numeric &&
       Bool.eqb (ucls_tab UWhiteSpace c) white &&
